@@ -81,5 +81,5 @@ def check_rescaling(case):
 
 SHARDS = {"quick": 8, "thorough": 16}
 ORACLES = [
-    Oracle("time_rescaling", case_strategy(), check_rescaling, quick=64, thorough=400, shrink_seconds=180),
+    Oracle("time_rescaling", case_strategy(), check_rescaling, quick=128, thorough=1500, shrink_seconds=180),
 ]
